@@ -204,3 +204,52 @@ Definition boundary_ref (s : cpu) (q : list Z) : option (cpu * list Z) :=
        | [] => Some (s, q)
        | v :: r => if dom_entry v s then obind (ref_entry v s) (fun s' => Some (s', r)) else None
        end.
+
+(* ---- MES system calls made with TRAPA #0 (C14): ER0 = call number, ER1 -> argument block ---- *)
+Fixpoint bytes_at (s : cpu) (a : Z) (n : nat) : option (list Z) :=
+  match n with
+  | O => Some []
+  | S k => match mem8 s a, bytes_at s (a + 1) k with Some b, Some t => Some (b :: t) | _, _ => None end
+  end.
+
+(* the call itself, on the state whose PC already points to the following instruction *)
+Definition mes_body (s : cpu) : option cpu :=
+  let next := s in
+  let id := reg32 s 0 in let arg := reg32 s 1 in
+  if id =? 104 then
+    (* write: {fd, buffer, length}: emit exactly the bytes once on the console and as one stdout message *)
+    obind (mem_read SL s (arg + 4)) (fun buf =>
+    obind (mem_read SL s (arg + 8)) (fun len =>
+    obind (mem_read SL s arg) (fun _ =>
+    obind (bytes_at s buf (Z.to_nat len)) (fun bs =>
+    let s1 := set_console (console s ++ bs) next in
+    Some (if sock s then set_bus (bset_msgs (b_msgs (cbus s1) ++ [MsgStdout bs]) (cbus s1)) s1 else s1)))))
+  else if id =? 113 then
+    (* set_handler: {vector, address}: install the handler for vectors 1-63, ignore others *)
+    obind (mem_read SL s arg) (fun v =>
+    obind (mem_read SL s (arg + 4)) (fun addr =>
+    if (1 <=? v) && (v <=? 63) then
+      obind (mem_write SL next (4 * v) ((0x5a000000 + addr) mod 4294967296)) (fun s1 =>
+      mem_write SL s1 (0xfffd10 + 4 * v) (reg32 s 5))
+    else Some next))
+  else None.
+
+Definition mes_ref (s : cpu) : option cpu := mes_body (with_pc (pc s + 2) s).
+
+Definition is_mes_call (s : cpu) : bool := word_at s (pc s) =? 0x5700.
+Definition dom_mes (s : cpu) : bool :=
+  code_ok s 2 && (reg32 s 1 + 12 <? A24)
+  && let id := reg32 s 0 in let arg := reg32 s 1 in
+     if id =? 104 then
+       span_ok data_ok arg 12 &&
+       match mem_read SL s (arg + 4), mem_read SL s (arg + 8) with
+       | Some buf, Some len => (len <=? 4096) && (buf + len <? A24) && span_ok (fun a => in_ram a || in_dram a) buf len
+       | _, _ => false
+       end
+     else if id =? 113 then
+       span_ok data_ok arg 8 &&
+       match mem_read SL s arg with
+       | Some v => (v <=? 255)
+       | None => false
+       end
+     else true.
